@@ -62,7 +62,9 @@ Tails(n) == {s[2] : s \in {t \in Splits : t[1] = n /\ t[3] \in Names}}
 FirstStr(n) == Digs \cup {t \o d : t \in Tokens, d \in {""} \cup D1} \cup {t \o d : t \in Tails(n), d \in {""} \cup Digs}
 ArgDom(n, shape, i) == IF shape[i] = "int" THEN Digs ELSE IF i = 1 THEN FirstStr(n) ELSE Digs
 
-Keys == {"k"} \cup {"k" \o t : t \in Tokens}
+\* "1": a key that is also a possible argument value (HMGET 1 1 2, LRANGE 1 1 2, EVAL_RO s 1 1 1): the identity leaves out the
+\* key by its POSITION in the command, not every argument that happens to equal it
+Keys == {"k", "1"} \cup {"k" \o t : t \in Tokens}
 Scripts == {"return 1", "return 11"}
 
 RECURSIVE ArgSeqs(_, _, _)
